@@ -31,7 +31,7 @@ REAL = ['py4hw.rtl_generation.VerilogGenerator and module-level caches', 'py4hw.
 STUB = ['stimulus']
 ASSUMPTIONS = ['"identical text up to the order of declarations and the instance-unique module suffixes": canonicalisation sorts wire '
                'declaration lines per module and renames hex suffixes by first appearance']
-PROBES = ['extended_between_generations', 'repeat_after_sim', 'repeat_after_other_circuit', 'repeat_after_crash', 'child_via_two_ancestors', 'fresh_vs_same_generator', 'sim_after_generation']
+PROBES = ['second_instance_compared', 'extended_between_generations', 'repeat_after_sim', 'repeat_after_other_circuit', 'repeat_after_crash', 'child_via_two_ancestors', 'fresh_vs_same_generator', 'sim_after_generation']
 
 INLINED = {'And2', 'Or2', 'Xor2', 'Nand2', 'Nor2', 'Not', 'Buf', 'Bit', 'Range', 'BitsLSBF', 'BitsMSBF', 'ConcatenateMSBF',
            'ConcatenateLSBF', 'Repeat', 'Constant', 'Mux2', 'Equal', 'EqualConstant', 'And', 'Or', 'Nor', 'Sub', 'Mul', 'SignedMul',
@@ -225,6 +225,28 @@ def run(scn, log, st):
         texts[key] = (can, si, op.get('via'), bool(op.get('fresh')))
         since[key] = set()
         log.add(si, kind, h64(can))
+    # repetition on a second instance: the same description built again in this process must give the same text
+    # (catches generator state that survives from the first generation of a class / module to the next)
+    for ci, c in enumerate(circ):
+        d = c['d']
+        first = d['order'][:d['late']] if d.get('late') is not None else None
+        fresh = netlist.Built(d).build(first)
+        if c.get('extended'):
+            fresh.build()
+        res = []
+        for obj in (c['b'], fresh):
+            try:
+                with quiet():
+                    res.append(canonical(py4hw.VerilogGenerator(obj.dut).getVerilogForHierarchy()))
+            except Exception as e:
+                res.append('REFUSED:%s' % type(e).__name__)
+        st.probe('second_instance_compared')
+        if res[0] != res[1]:
+            a, b2 = res[0].split('\n'), res[1].split('\n')
+            j = next((i for i in range(min(len(a), len(b2))) if a[i] != b2[i]), min(len(a), len(b2)))
+            raise Violation('not-repeatable', 'regen-differs:second-instance', len(scn['ops']) + 1,
+                            'circuit %d: text for the circuit and for a second instance of the same description differ at line %d: %r vs %r' % (
+                                ci, j, a[j] if j < len(a) else None, b2[j] if j < len(b2) else None))
     # final: every circuit still simulates like its never-generated twin
     for ci, c in enumerate(circ):
         with quiet():
